@@ -43,8 +43,8 @@ def classes():
                 self.y = y
                 self.aid = model.world.new_aid(self)
 
-            def act(self, arg):
-                return self.model.world.callback(self, arg)
+            def act(self, arg, tag=None):
+                return self.model.world.callback(self, arg, tag)
 
         class T1(T0):
             pass
@@ -148,10 +148,10 @@ class WorldImpl:
         self.held.pop(aid, None)
 
     # -- callbacks ------------------------------------------------------------------------
-    def callback(self, agent, arg):
+    def callback(self, agent, arg, tag=None):
         aid = agent.aid
         self.log.append((aid, arg))
-        self.trace.append(("invoke", aid, arg))
+        self.trace.append(("invoke", aid, arg, tag))
         for act in self.scripts.get(aid, ()):
             k = act[0]
             if k == "rmself":
@@ -331,17 +331,21 @@ class WorldImpl:
         arg, how = int(w[-2]), w[-1]
         before = self.ids(s)
         rem = list(self.models[m].random.remaining())
-        self.trace.append(("call", k, w[1], before, rem, arg, key, [self.info[a][1:3] for a in before]))
-        method = "act" if how == "str" else (lambda a, x: a.model.world.callback(a, x))
+        # glue ("arguments are passed through unchanged"): the argument travels positionally or by keyword, alone or
+        # with a second keyword argument `tag` = arg + 7 that the callback reports back
+        form = (arg + len(before)) % 3
+        pa, kw = ((arg,), {}) if form == 0 else ((), {"arg": arg, "tag": arg + 7}) if form == 1 else ((arg,), {"tag": arg + 7})
+        self.trace.append(("call", k, w[1], before, rem, arg, key, [self.info[a][1:3] for a in before], kw.get("tag")))
+        method = "act" if how == "str" else (lambda a, arg, tag=None: a.model.world.callback(a, arg, tag))
         res = ""
         if k == "do":
-            r = s.do(method, arg)
+            r = s.do(method, *pa, **kw)
             assert r is s
         elif k == "shuffledo":
-            r = s.shuffle_do(method, arg)
+            r = s.shuffle_do(method, *pa, **kw)
             assert r is s
         elif k == "map":
-            r = s.map(method, arg)
+            r = s.map(method, *pa, **kw)
             res = " res=" + ",".join(map(str, r))
             self.trace.append(("result", list(r)))
         else:
@@ -350,10 +354,10 @@ class WorldImpl:
                   "mod3": (lambda a: a.unique_id % 3)}[key]
             gb = s.groupby(by)
             if k == "gdo":
-                r = gb.do("do", method, arg) if how == "str" else gb.do(lambda g, x: g.do(method, x), arg)
+                r = gb.do("do", method, *pa, **kw) if how == "str" else gb.do(lambda g, *a, **k2: g.do(method, *a, **k2), *pa, **kw)
                 assert r is gb
             else:
-                r = gb.map("map", method, arg) if how == "str" else gb.map(lambda g, x: g.map(method, x), arg)
+                r = gb.map("map", method, *pa, **kw) if how == "str" else gb.map(lambda g, *a, **k2: g.map(method, *a, **k2), *pa, **kw)
                 res = " res=" + ";".join(f"{kk}:{'.'.join(map(str, v))}" for kk, v in r.items())
                 self.trace.append(("result", [(kk, list(v)) for kk, v in r.items()]))
             del gb, r
@@ -725,7 +729,7 @@ def oracle_c04(sc, obs):
             elif k == "unhold":
                 held.discard(ev[1])
             elif k == "call":
-                _, kind, tok, before, rem, arg, key, tyuid = ev
+                _, kind, tok, before, rem, arg, key, tyuid, tag = ev
                 if kind == "shuffledo":
                     visit = _shuffle_reference(before, rem)
                 elif kind in ("gdo", "gmap"):
@@ -737,7 +741,7 @@ def oracle_c04(sc, obs):
                     call_groups = groups
                 else:
                     visit = list(before)
-                call = {"kind": kind, "before": before, "visit": visit, "arg": arg, "created": set(),
+                call = {"kind": kind, "before": before, "visit": visit, "arg": arg, "tag": tag, "created": set(),
                         "groups": call_groups if kind in ("gdo", "gmap") else None}
                 if len(set(before)) != len(before):
                     bad.append(f"set: duplicate member in {tok}: {before}")
@@ -745,7 +749,9 @@ def oracle_c04(sc, obs):
                 snap = (set(registered), set(held))
                 pending = list(visit)
             elif k == "invoke" and call is not None:
-                _, aid, arg = ev
+                _, aid, arg, tag = ev
+                if tag != call["tag"]:
+                    bad.append(f"args: agent {aid} received the keyword argument tag={tag}, the call passed tag={call['tag']}")
                 if aid in invoked:
                     bad.append(f"twice: agent {aid} invoked twice by `{line}`")
                 if aid not in call["before"]:
